@@ -143,12 +143,12 @@ def build():
             queued_on(&old(connections)[%s], &final(connections)[%s], pkt@, seq, packet_time_ms) || flushed(&final(connections)[%s])''' % (SEL, SEL, SEL)),
                    C('C01.route.forward.held_for_at_most_one_batch_of_32', '''sel_idx < old(connections).len() && conn_io@.contains_key(old(connections)[%s].conn_id) ==>
             final(connections)[%s].batch_sender.queue.len() < 32''' % (SEL, SEL)),
-                   C('C05.route.forward.tracker_records_the_carrier_of_the_unique_copy', '''sel_idx < old(connections).len() ==> (match seq {
+                   C('C05+C10.route.forward.tracker_records_the_carrier_of_the_unique_copy', '''sel_idx < old(connections).len() ==> (match seq {
                 Some(s) => final(seq_tracker).entries@[seq_slot(s)].conn_id == old(connections)[%s].conn_id && final(seq_tracker).entries@[seq_slot(s)].seq == s
                     && final(seq_tracker).entries@[seq_slot(s)].timestamp_ms == packet_time_ms
                     && (forall|i: int| 0 <= i < 16384 && i != seq_slot(s) ==> #[trigger] final(seq_tracker).entries@[i] == old(seq_tracker).entries@[i]),
                 None => final(seq_tracker).entries@ == old(seq_tracker).entries@ })''' % SEL),
-                   'sel_idx < old(connections).len() ==> *final(last_selected_idx) == Some(sel_idx)',
+                   C('C11.route.forward.every_routed_packet_becomes_the_hysteresis_anchor', 'sel_idx < old(connections).len() ==> *final(last_selected_idx) == Some(sel_idx)'),
                    'sel_idx >= old(connections).len() ==> final(connections)@ == old(connections)@ && final(seq_tracker).entries@ == old(seq_tracker).entries@',
                    'forall|j: int| 0 <= j < old(connections).len() ==> (#[trigger] final(connections)[j]).conn_id == old(connections)[j].conn_id',
                ]))
